@@ -7,6 +7,7 @@ which the check also evaluates on traces observed from the real IOLoop.
 import TornadoModel.C38.Lemmas
 import TornadoModel.C38.Inv2
 import TornadoModel.C38.XThread
+import TornadoModel.C38.RSProps
 namespace TornadoModel.C38
 open Spec
 
@@ -194,6 +195,68 @@ example : (runFuel 200 (init demoTbl [] demoMain)).log.countP isLogged = 2 := by
 example : (runFuel 200 (init demoTbl [] demoMain)).log.any (fun e => match e with | .ranF .. => true | _ => false) = true := by
   decide
 example : Ev.ranT 0 2 3 3 2 7 ∈ (runFuel 200 (init demoTbl [] demoMain)).log := by decide   -- deadline 3, ran late at 7
+
+/-! ### `run_sync` on the loop machine (RunSync.lean): sequences of calls on ONE loop.  A main program is a list of
+`call fn timeout` / `advance d` / `runFor d`; `RS.runOps` runs it on a fresh loop and returns what the main program
+observes after each operation. -/
+
+/-- **run_sync_timeout_after_cancel** ("raises TimeoutError *after cancelling it*"): in every main program, for every
+tie-break, with the fixed and with the legacy `timeout_callback`, a `run_sync` call that ends with `TimeoutError` had
+`cancel()` requested (and accepted) on the function's future by `timeout_callback`. -/
+theorem run_sync_timeout_after_cancel (legacy : Bool) (pref : List Nat) (fuel : Nat) (ops : List RS.Op) :
+    ∀ r ∈ (RS.runOps fuel (RS.fresh legacy pref) ops).2, r.out = .timeoutError → r.creq = true :=
+  RS.runOps_ok fuel ops (RS.inv_fresh legacy pref)
+
+/-- **run_sync_leaves_no_timeout**: when every operation of the main program has returned, none of the `run_sync`
+timeouts is still armed on the loop — whatever the outcomes were (result, re-raised exception, TimeoutError, explicit
+stop): `remove_timeout` comes right after `start()`.  (What a later `start()` finds are only the user's own timers.) -/
+theorem run_sync_leaves_no_timeout (legacy : Bool) (pref : List Nat) (fuel : Nat) (ops : List RS.Op)
+    (hr : ∀ r ∈ (RS.runOps fuel (RS.fresh legacy pref) ops).2, r.returned = true) :
+    ∀ t ∈ (RS.runOps fuel (RS.fresh legacy pref) ops).1.timers, RS.isTmo t.k = false :=
+  RS.runOps_noTmo fuel ops (RS.noTmo_fresh legacy pref) hr
+
+/-- the outcomes of a main program -/
+def rsOuts (legacy : Bool) (ops : List RS.Op) : List Outcome :=
+  (RS.runOps 60 (RS.fresh legacy []) ops).2.map (·.out)
+
+/-- **run_sync_machine_agrees_bounded** (bounded, by evaluation): for a single `run_sync` on a fresh loop, durations and
+timeouts below 5, coroutine and bare-Future awaitables, the outcome computed by the loop machine is the one of the
+stand-alone table `runSync` / of `Spec.runSyncSpec` (at a tie the timeout, armed first, wins). -/
+def rsAgreeAt (d t : Nat) (ok : Bool) : Prop :=
+  rsOuts false [.call (.coro (some d) ok) (some t)] = [Spec.runSyncSpec (.awaitable (some d) ok) (some t)] ∧
+  rsOuts false [.call (.fut (some d) ok) (some t)] = [Spec.runSyncSpec (.awaitable (some d) ok) (some t)] ∧
+  rsOuts false [.call (.coro (some d) ok) none] = [Spec.runSyncSpec (.awaitable (some d) ok) none] ∧
+  rsOuts false [.call (.coro none ok) (some t)] = [.timeoutError] ∧
+  rsOuts false [.call .raises (some t)] = [.userError] ∧ rsOuts false [.call .retNone (some t)] = [.result] ∧
+  rsOuts false [.call (.stopsLoop d) (some t)] = [Spec.runSyncSpec (.stopsLoop d) (some t)]
+
+instance (d t : Nat) (ok : Bool) : Decidable (rsAgreeAt d t ok) := by unfold rsAgreeAt; infer_instance
+
+theorem run_sync_machine_agrees_bounded : ∀ d < 5, ∀ t < 5, rsAgreeAt d t true ∧ rsAgreeAt d t false := by
+  decide
+
+/-- the general statement behind the bounded one (not proved: tie-only, the check compares machine and real loop on
+every generated sequence and applies `Spec.rsAllowed` to what the real loop did) -/
+def run_sync_machine_outcomes_goal : Prop :=
+  ∀ (fn : RS.Fn) (timeout : Option Nat) (pref : List Nat),
+    ∀ r ∈ (RS.runOps 60 (RS.fresh false pref) [.call fn timeout]).2, r.out ∈ Spec.rsAllowed fn timeout
+
+/-- **run_sync_stale_stop_legacy / _fixed** (the defect repaired in tornado `fix:` commit, see known_findings/C38.json):
+with the legacy `timeout_callback` (`if not future.cancel(): self.stop()`), `run_sync(f, timeout=0)` with a plain `f`
+strands the `add_future` wrapper on the loop, and the next `run_sync` of a coroutine on the same loop fails with
+`RuntimeError("Event loop stopped before Future completed")`; with the fixed callback it returns the result. -/
+theorem run_sync_stale_stop_legacy :
+    rsOuts true [.call .retNone (some 0), .call (.coro (some 1) true) none] = [.result, .runtimeError] := by decide
+theorem run_sync_stale_stop_fixed :
+    rsOuts false [.call .retNone (some 0), .call (.coro (some 1) true) none] = [.result, .result] := by decide
+
+/-- non-vacuity of `run_sync_timeout_after_cancel` / `run_sync_leaves_no_timeout`: a coroutine timed out (cancelled, saw
+CancelledError), a raising function with a long timeout, then a run past that old deadline: everything returned,
+outcomes as the property says, no timer left -/
+example : rsOuts false [.call (.coro (some 5) true) (some 3), .call .raises (some 5), .call (.fut (some 7) true) none] =
+    [.timeoutError, .userError, .result] := by decide
+example : ((RS.runOps 60 (RS.fresh false []) [.call (.coro (some 5) true) (some 3)]).2.map
+    (fun r => (r.cancelled, r.saw, r.creq, r.timers))) = [(true, true, true, [])] := by decide
 
 /-! ### `add_callback` from the loop's own thread, from a plain thread, or from code running on another event loop
 (XThread.lean: one loop = ready queue + "blocked in select" + "byte in the self-pipe") -/
